@@ -67,12 +67,23 @@ class Loop:
         if r.returncode != 0:
             raise RuntimeError("losetup failed: " + r.stderr.decode())
         self.path = r.stdout.decode().strip()
+        self.rdev = os.stat(self.path).st_rdev
+
+    def restore_node(self):
+        """-> True if the device node had been removed (by the command under test) and was put back"""
+        if not os.path.exists(self.path):
+            import stat as _stat
+            os.mknod(self.path, 0o660 | _stat.S_IFBLK, self.rdev)
+            return True
+        return False
 
     def read(self, n):
+        self.restore_node()
         with open(self.path, "rb") as f:
             return f.read(n)
 
     def close(self):
+        self.restore_node()
         sh(["losetup", "-d", self.path])
 
 
